@@ -38,6 +38,9 @@ def floors(tier):
 
 
 def rand_range(rng):
+    if rng.random() < 0.06:
+        a, b = rng.sample([-3, -2, -1, 0, 1, 2, 3], 2)  # set-ups in one process that differ in exactly one small integer
+        return [a, b]
     if rng.random() < 0.08:
         # small or large in absolute terms, wide relative to its own magnitude: as non-degenerate as [0, 360]
         sc = 10.0 ** rng.choice([-12, -10, -9, -6, -3, 6, 9])
